@@ -198,9 +198,13 @@ def ob_doit():
         def run_tests(runners):
             seen['jobs'] = hh.options.num_processes; seen['runners'] = list(runners)
         hh.run_tests = run_tests
-        hh.total_failure_count = lambda: 0
+        # the number of bad results of a run is an arbitrary natural number (a run may have any number of tests): what the PROCESS reports is the low
+        # 8 bits of the value handed to sys.exit()
+        nbad = sym_int('bad_results', 0, 1023)
+        hh.total_failure_count = lambda: nbad
         rc = hh.doit()
-        check(rc == 0, 'exit status 0 when nothing failed')
+        status = rc & 255 if not isinstance(rc, bool) else int(rc)
+        check(eq(status != 0, nbad > 0) if is_sym(status) or is_sym(nbad) else ((status != 0) == (nbad > 0)), 'the exit status is non-zero iff some result was bad (whatever their number)')
         check(seen['jobs'] <= jobs, 'the scheduler never gets more jobs than requested')
         check(seen['jobs'] >= 1, 'at least one job')
         rep = concretize_int(repeat) if is_sym(repeat) else repeat
